@@ -222,7 +222,9 @@ func profileFor(prop string) profile {
 		pr.byz = 0.8
 		pr.acts = []string{"equivocate", "equivocate", "equivocate", "badparent", "sameview", "staleqc", "liefetch", "liefetch", "silent", "replay", "futuretimeout"}
 	case "C03":
-		pr.acts = append(append([]string{}, allActs...), "spoofproposer", "spoofproposer", "spoofproposer", "spoofproposer")
+		pr.acts = append(append([]string{}, allActs...), "spoofproposer", "spoofproposer", "spoofproposer", "spoofproposer",
+			// certificates that nobody backs, so that the list of everything else does not thin them out
+			"dupsigner", "dupsigner", "dupsigner", "dupsigner", "dupsigner", "dupsigner", "subquorum", "subquorum", "relabel", "relabel", "wrongblock", "wrongblock", "onevalid", "onevalid")
 	case "C01", "C07":
 	case "C11":
 		pr.byz = 0.9
@@ -277,6 +279,9 @@ func GenPlan(prop string, seed uint64) *Plan {
 	}
 	if prop == "C01" && g.p(0.04) {
 		return genFHSHideAttack(g, p)
+	}
+	if prop == "C01" && g.p(0.08) {
+		return genForgeForkAttack(g, p)
 	}
 	if (prop == "C01" && g.p(0.65)) || (prop == "C03" && g.p(0.35)) {
 		return genTwinsScenario(g, p)
@@ -687,6 +692,40 @@ func genLocklessAttack(g *gen, p *Plan) *Plan {
 	p.PrefixScript = []int{z, rest[0]}
 	p.Script = []int{z}
 	p.UntilMs = 300
+	p.MaxViews = 12
+	p.MaxSteps = 20000
+	return p
+}
+
+// genForgeForkAttack: see forgeFork in adversary.go.
+func genForgeForkAttack(g *gen, p *Plan) *Plan {
+	p.N = pick(g, 4, 4, 7)
+	p.Ruleset = pick(g, "chainedhotstuff", "simplehotstuff")
+	p.Crypto = pick(g, "eddsa", "ecdsa", "ecdsa", "bls12")
+	p.Cache = pick(g, 0, 8, 100)
+	p.SyncVerify = true
+	p.Wire = g.p(0.3)
+	p.ViewDur = ViewDur{Kind: "fixed", Ms: 400}
+	p.Batch = 1
+	p.Filler = true
+	p.Queue = 1 << 16
+	p.Links = LinkCfg{BaseUs: 200, JitterUs: pick(g, 0, 100)}
+	z := g.rng(1, p.N)
+	p.Byz = []ByzNd{{ID: z, Kind: "script", Acts: []string{"forgefork", "silent"}, Rate: 1}}
+	var rest []int
+	for id := 1; id <= p.N; id++ {
+		if id != z {
+			rest = append(rest, id)
+		}
+	}
+	for i := len(rest) - 1; i > 0; i-- {
+		j := g.intn(i + 1)
+		rest[i], rest[j] = rest[j], rest[i]
+	}
+	p.Knobs = map[string]int{"ffA": rest[0], "ffB": rest[1], "ffKind": g.intn(10)}
+	p.Leader = "scripted"
+	p.Script = []int{z}
+	p.UntilMs = 60
 	p.MaxViews = 12
 	p.MaxSteps = 20000
 	return p
